@@ -506,6 +506,63 @@ def gen_until_fail(rng, cid):
     return c
 
 
+def gen_until_react(rng, cid):
+    """a split plan whose run(until=event) waits for an event that has waiters registered BEFORE run() is called, and those
+    waiters react at once: they start a process, interrupt a sleeper, trigger another event with its own waiter, create a
+    zero-delay timeout.  C03 "run(until=event) returns that event's value right after it is processed": none of these
+    reactions has taken effect when run() returns; they do when the run is resumed."""
+    c = Case(cid, 'plan')
+    t = rng.choice([0.5, 1, 1, 2])
+    main = []
+    c.progs.append(main)
+    c.mains.append((0, 1))
+    names = 600
+    kind = rng.random()
+    if kind < 0.45:
+        main.append(('timeout', 0, t, val(rng)))
+    elif kind < 0.75:
+        main.append(('event', 0))
+        c.progs.append([('timeout', 9, t, None), ('yield', 9, 0), ('succeed', 0, val(rng))])
+        c.mains.append((1, 2))
+    else:
+        names += 1
+        c.progs.append([('timeout', 9, t, None), ('yield', 9, 0), ('ret', val(rng))])
+        main.append(('spawn', 0, 1, names))
+    main.append(('event', 5))
+    # a sleeper to interrupt (slot 2), a waiter of the event the reactions trigger (slot 5)
+    names += 1
+    c.progs.append([('timeout', 8, 10, None), ('yield', 8, rng.choice([0, 0, 1, 2])), ('log', 60)])
+    main.append(('spawn', 2, len(c.progs) - 1, names))
+    c.progs.append([('yield', 5, 0), ('log', 61)])
+    c.mains.append((len(c.progs) - 1, 3))
+    helper = len(c.progs)
+    c.progs.append([('log', 62)] + ([('timeout', 7, rng.choice([0, 1]), None), ('yield', 7, 0), ('log', 63)] if rng.random() < 0.6 else []))
+    for j in range(rng.randint(1, 3)):
+        prog = []
+        if rng.random() < 0.3:
+            prog += [('timeout', 10 + j, rng.choice([0, 0.25]), None), ('yield', 10 + j, 0)]
+        prog.append(('yield', 0, 0))
+        for _ in range(rng.randint(1, 3)):
+            x = rng.random()
+            if x < 0.35:
+                names += 1
+                prog.append(('spawn', 20 + j, helper, names))
+            elif x < 0.65:
+                prog.append(('interrupt', 2, 30 + j))
+            elif x < 0.85:
+                prog.append(('succeed', 5, 40 + j))
+            else:
+                prog += [('timeout', 24 + j, 0, 50 + j), ('probe', 24 + j, 50 + j)]
+        prog.append(('log', 64 + j))
+        c.progs.append(prog)
+        c.mains.append((len(c.progs) - 1, 4 + j))
+    main += [('timeout', 6, t + rng.choice([1, 2]), 7), ('yield', 6, 0), ('log', 69)]
+    c.plan = [rng.choice([('S', rng.randint(len(c.mains), len(c.mains) + 6)), ('T', float(t) / 2), ('T', 0.25)]), ('E', 0)]
+    if rng.random() < 0.6:
+        c.plan.append(rng.choice([('S', 1), ('S', 3), ('T', float(t + 0.5)), ('E', 6), ('E', 5)]))
+    return c
+
+
 # ------------------------------------------------------------------------------------------------
 # interrupts (C04): victims with long waits and the five handler behaviours, interrupters that hit them at
 # chosen instants (before, exactly at, after the victim's target is due; right after spawn; several at once),
